@@ -40,7 +40,7 @@ CHECKS = {
                 note='Trusted base: simpool semantics (modelled on CPython multiprocessing.pool), mdtraj and PyTables as reference readers, NumPy. Tasks are atomic. <= 12 files x <= 12 frames x <= 9 atoms; <= 120 rows (1100 thorough), rows up to 20 000 elements (longer than one HDF5 chunk). Faults: read errors and short reads per file, ENOSPC / ENOMEM when the shared array is created; after a failed load the same load must succeed.'),
     'C13': dict(engine='simgomp+simalloc', design='5/C13, 4.3',
                 technique='deterministic simulation: the unmodified compiled kernels linked against a simulated OpenMP runtime (virtual-thread teams with tape-chosen order, snapshot-isolated memory merged last-writer-wins) on a poisoned, red-zoned heap; exact rational reference',
-                note='Trusted base: simgomp/simalloc (sim/native/simrt.c), exact-arithmetic reference, NumPy. Segments between barriers are not interleaved at instruction level; snapshot isolation is the stricter memory model used instead. 0..70 samples x 0..9 features, teams of 1..64.'),
+                note='Trusted base: simgomp/simalloc (sim/native/simrt.c), exact-arithmetic reference, NumPy. Segments between barriers are not interleaved at instruction level; snapshot isolation is the stricter memory model used instead; critical sections, atomics, locks and Cython `with gil:` blocks are modelled (writes inside them are committed at once and are no conflict). 0..70 samples x 0..9 features, teams of 1..64.'),
     'C18': dict(engine='simgomp+simalloc', design='5/C18, 4.3',
                 technique='deterministic simulation: compiled counting kernel on the simulated OpenMP runtime (team size, order, snapshot isolation) over a poisoned red-zoned heap, invalid inputs probed in a forked child; exact integer counting model; algebraic laws as labelled pure post-conditions',
                 note='Trusted base: simgomp/simalloc, exact counting model, float64 MI/entropy model. 1..40 frames, 1..5 features and 2..5 states per side.'),
